@@ -21,6 +21,17 @@ Checks, taken from the statement of C09:
   every add_* form           no exception on arbitrary existing gates; pre-existing gates keep label, type, operands,
                              function; only fresh non-input gates; outputs change only when asked; well formed result;
   generate_* wrappers        the same value claims on the returned circuit (inputs/outputs positional).
+
+Operand modes beyond bare / decorated / host / hostrand (see _arith_common), at small widths, for add_sub_two_numbers,
+add_subtract_with_compare, add_div_mod, add_sqrt, add_equal, add_plus_one:
+  adversarial   the operands are inputs of a host that already holds gates of all 14 binary types over the first two
+                bit positions of the operand pair in both operand orders (e.g. LT(b0, a0) when add_sub2 wants
+                LT(a0, b0)) plus NOT/IFF of the first bits; same value and frame clauses;
+  twice         the generator is first called with the operands swapped (b, a) and then, in the same circuit, with
+                (a, b); the second call is checked as usual (its frame = the circuit after the first call) and the
+                result of the first call is checked again in the final circuit (one-operand generators: same operand
+                twice; add_equal: first with num xor 1).
+A failure gets the token `adversarial-host` / `called-twice` only when the bare variant of the same case passes.
 """
 import math
 
@@ -110,15 +121,20 @@ def task_sub(out, n, m, modes):
     A = _A()
     tok = None if n == m else 'unequal-lengths'
     sub = lambda a, b, n=n: (a - b) % (1 << n)
+    bus = lambda a, b, m=m: (b - a) % (1 << m)     # the swapped call of the 'twice' mode
     fn = 'add_sub_two_numbers'
     core = Core(PROP, fn, tok)
     for mode in modes:
         for be in (False, True):
             v = Variant(be, mode)
             env = make_env(mode, [n, m], salt=(fn, be))
-            fr = Frame(env)
             la, lb = _rev(env.ops[0], be), _rev(env.ops[1], be)
             args = {'input_labels_a': la, 'input_labels_b': lb, 'big_endian': be}
+            tw = None
+            if mode == 'twice':
+                tw = K.Twice(fn, v, env)
+                tw.first(A.add_sub_two_numbers, {'input_labels_a': lb, 'input_labels_b': la, 'big_endian': be}, env.circuit, list(lb), list(la), big_endian=be)
+            fr = Frame(env)
             res, fails, _ = _call(fn, A.add_sub_two_numbers, v, args, fr, env.circuit, list(la), list(lb), big_endian=be)
             out.case(D_SUB, (fn, n, m, mode, be), sample={'function': fn, 'n': n, 'm': m, 'big_endian': be} if (n, m, mode) == (3, 2, 'bare') else None)
             if not fails:
@@ -126,6 +142,10 @@ def task_sub(out, n, m, modes):
                 if fr.vals is not None:
                     fails += _value(fn, v, env, fr.vals, _rev(res, be), K.expected_vectors(env, ('a-b mod', n), sub), args, fr, '(a-b) mod 2^len(a)')
                     fails += _length(fn, v, len(res), n, args, fr)
+                    if tw is not None and tw.result is not None:
+                        fails += tw.check(fr, 'value', _rev(tw.result, be), K.expected_vectors(env, ('b-a mod', m), bus), '(b-a) mod 2^len(b)', args)
+            if tw is not None:
+                fails += tw.fail
             core.add(v, fails)
     core.flush(out)
     gname = 'generate_sub_two_numbers'
@@ -149,9 +169,13 @@ def task_sub(out, n, m, modes):
         for be in (False, True):
             v = Variant(be, mode)
             env = make_env(mode, [n, m], salt=(fn, be))
-            fr = Frame(env)
             la, lb = _rev(env.ops[0], be), _rev(env.ops[1], be)
             args = {'input_labels_a': la, 'input_labels_b': lb, 'big_endian': be}
+            tw = None
+            if mode == 'twice':
+                tw = K.Twice(fn, v, env)
+                tw.first(A.add_subtract_with_compare, {'input_labels_a': lb, 'input_labels_b': la, 'big_endian': be}, env.circuit, list(lb), list(la), big_endian=be)
+            fr = Frame(env)
             r, fails, _ = _call(fn, A.add_subtract_with_compare, v, args, fr, env.circuit, list(la), list(lb), big_endian=be)
             out.case(D_SUB, (fn, n, m, mode, be), sample={'function': fn, 'n': n, 'm': m, 'big_endian': be} if (n, m, mode) == (2, 3, 'bare') else None)
             if not fails:
@@ -175,6 +199,19 @@ def task_sub(out, n, m, modes):
                         if not any(f[0] == 'value' for f in fails):
                             fails += _value(fn, v, env, fr.vals, [flag], K.expected_vectors(env, 'a<b', lambda a, b: int(a < b)), args, fr,
                                             'flag vs (a < b)', clause='borrow-flag')
+                    if tw is not None and tw.result is not None:
+                        try:
+                            res1, flag1 = tw.result
+                            res1 = list(res1)
+                        except Exception:  # noqa
+                            res1 = None
+                        if res1 is not None and len(res1) >= m:
+                            f1 = tw.check(fr, 'value', _rev(res1, be)[:m], K.expected_vectors(env, ('b-a mod', m), bus), 'low len(b) bits vs (b-a) mod 2^len(b)', args)
+                            if not f1:
+                                f1 = tw.check(fr, 'borrow-flag', [flag1], K.expected_vectors(env, 'b<a', lambda a, b: int(b < a)), 'flag vs (b < a)', args)
+                            fails += f1
+            if tw is not None:
+                fails += tw.fail
             core.add(v, fails)
     core.flush(out)
 
@@ -224,9 +261,13 @@ def task_divmod(out, n, modes):
         for be in (False, True):
             v = Variant(be, mode)
             env = make_env(mode, [n, n], salt=(fn, be))
-            fr = Frame(env)
             la, lb = _rev(env.ops[0], be), _rev(env.ops[1], be)
             args = {'input_labels_a': la, 'input_labels_b': lb, 'big_endian': be}
+            tw = None
+            if mode == 'twice':
+                tw = K.Twice(fn, v, env)
+                tw.first(A.add_div_mod, {'input_labels_a': lb, 'input_labels_b': la, 'big_endian': be}, env.circuit, list(lb), list(la), big_endian=be)
+            fr = Frame(env)
             r, fails, _ = _call(fn, A.add_div_mod, v, args, fr, env.circuit, list(la), list(lb), big_endian=be)
             out.case(D_DIV, (fn, n, mode, be), sample={'function': fn, 'n': n, 'big_endian': be} if (n, mode) == (3, 'bare') else None)
             if not fails:
@@ -236,6 +277,12 @@ def task_divmod(out, n, modes):
                     fails += _value(fn, v, env, fr.vals, _rev(d, be), K.expected_vectors(env, 'a//b', _div), args, fr, 'floor(a/b) (0 for b=0)', clause='div')
                     fails += _value(fn, v, env, fr.vals, _rev(md, be), K.expected_vectors(env, 'a%b', _mod), args, fr, 'a mod b (0 for b=0)', clause='mod')
                     fails += _length(fn, v, (len(d), len(md)), (n, n), args, fr)
+                    if tw is not None and tw.result is not None:
+                        d1, md1 = list(tw.result[0]), list(tw.result[1])
+                        fails += tw.check(fr, 'div', _rev(d1, be), K.expected_vectors(env, 'b//a', lambda a, b: _div(b, a)), 'floor(b/a) (0 for a=0)', args)
+                        fails += tw.check(fr, 'mod', _rev(md1, be), K.expected_vectors(env, 'b%a', lambda a, b: _mod(b, a)), 'b mod a (0 for a=0)', args)
+            if tw is not None:
+                fails += tw.fail
             core.add(v, fails)
     core.flush(out)
     gname = 'generate_div_mod'
@@ -266,9 +313,13 @@ def task_sqrt(out, n, modes):
         for be in (False, True):
             v = Variant(be, mode)
             env = make_env(mode, [n], salt=(fn, be))
-            fr = Frame(env)
             la = _rev(env.ops[0], be)
             args = {'input_labels': la, 'big_endian': be}
+            tw = None
+            if mode == 'twice':
+                tw = K.Twice(fn, v, env)
+                tw.first(A.add_sqrt, args, env.circuit, list(la), big_endian=be)
+            fr = Frame(env)
             res, fails, _ = _call(fn, A.add_sqrt, v, args, fr, env.circuit, list(la), big_endian=be)
             out.case(D_SQRT, (fn, n, mode, be), sample={'function': fn, 'n': n, 'big_endian': be} if (n, mode) == (4, 'bare') else None)
             if not fails:
@@ -276,6 +327,10 @@ def task_sqrt(out, n, modes):
                 if fr.vals is not None:
                     fails += _value(fn, v, env, fr.vals, _rev(res, be), K.expected_vectors(env, 'isqrt', math.isqrt), args, fr, 'floor(sqrt(a))')
                     fails += _length(fn, v, len(res), want, args, fr)
+                    if tw is not None and tw.result is not None:
+                        fails += tw.check(fr, 'value', _rev(tw.result, be), K.expected_vectors(env, 'isqrt', math.isqrt), 'floor(sqrt(a))', args)
+            if tw is not None:
+                fails += tw.fail
             core.add(v, fails)
     core.flush(out)
     gname = 'generate_sqrt'
@@ -308,9 +363,13 @@ def task_equal(out, n, modes):
         for mode in modes:
             v = Variant(False, mode)
             env = make_env(mode, [n], salt=(fn,))
-            fr = Frame(env)
             la = list(env.ops[0])
             args = {'input_labels': la, 'num': num}
+            tw = None
+            if mode == 'twice':
+                tw = K.Twice(fn, v, env)
+                tw.first(A.add_equal, {'input_labels': la, 'num': num ^ 1}, env.circuit, list(la), num ^ 1)
+            fr = Frame(env)
             res, fails, _ = _call(fn, A.add_equal, v, args, fr, env.circuit, list(la), num)
             out.case(D_EQ, (fn, n, num, mode), sample={'function': fn, 'n': n, 'num': num} if (n, num, mode) == (3, 5, 'bare') else None)
             if not fails:
@@ -318,6 +377,11 @@ def task_equal(out, n, modes):
                 if fr.vals is not None:
                     fails += _value(fn, v, env, fr.vals, [res], K.expected_vectors(env, ('a==', num), eq), args, fr,
                                     f'gate value (as 0/1) vs (operand == {num})')
+                    if tw is not None and tw.result is not None:
+                        fails += tw.check(fr, 'value', [tw.result], K.expected_vectors(env, ('a==', num ^ 1), lambda a, k=num ^ 1: int(a == k)),
+                                          f'gate value (as 0/1) vs (operand == {num ^ 1})', args)
+            if tw is not None:
+                fails += tw.fail
             core.add(v, fails)
         core.flush(out)
         gname = 'generate_equal'
@@ -345,7 +409,7 @@ def _classify_exception(info, mode, add_outputs):
     the real code that raised (from the traceback) together with the argument feature that makes it raise."""
     tn, names = info
     if 'order_inputs' in names:
-        return 'internal-gate-operands' if mode not in ('bare', 'decorated') else f'order_inputs-{tn}'
+        return 'internal-gate-operands' if mode not in ('bare', 'decorated', 'twice') + K.ADVERSARIAL_MODES else f'order_inputs-{tn}'
     if 'order_outputs' in names:
         return 'add_outputs=False' if not add_outputs else f'order_outputs-{tn}'
     return None
@@ -364,8 +428,13 @@ def task_plus_one(out, inp_len, modes):
                 for be in (False, True):
                     v = Variant(be, mode)
                     env = make_env(mode, [inp_len], salt=(fn, be, out_len, add_outputs))
-                    fr = Frame(env)
                     la = _rev(env.ops[0], be)
+                    tw = None
+                    if mode == 'twice':     # first call: default result labels, same operand
+                        tw = K.Twice(fn, v, env)
+                        tw.first(Gn.add_plus_one, {'input_labels': la, 'result_labels': None, 'add_outputs': add_outputs, 'big_endian': be},
+                                 env.circuit, list(la), add_outputs=add_outputs, big_endian=be)
+                    fr = Frame(env)
                     given = None if out_len is None else _rev([f'res{i}' for i in range(out_len)], be)
                     args = {'input_labels': la, 'result_labels': given, 'add_outputs': add_outputs, 'big_endian': be}
                     kw = {'add_outputs': add_outputs, 'big_endian': be}
@@ -397,6 +466,11 @@ def task_plus_one(out, inp_len, modes):
                         if fr.vals is not None:
                             fails += _value(fn, v, env, fr.vals, _rev(res, be), K.expected_vectors(env, ('a+1 mod', olen), inc), args, fr, f'(x+1) mod 2^{olen}')
                             fails += _length(fn, v, len(res), olen, args, fr)
+                            if tw is not None and tw.result is not None:
+                                fails += tw.check(fr, 'value', _rev(tw.result, be), K.expected_vectors(env, ('a+1 mod', inp_len + 1), lambda a: a + 1),
+                                                  f'(x+1) mod 2^{inp_len + 1}', args)
+                    if tw is not None:
+                        fails += tw.fail
                     core.add(v, fails)
             core.flush(out)
     # generate_plus_one
@@ -531,18 +605,21 @@ def _check_gen_gadget(gname, v, c, widths, n, expect, args):
 def run_bounded(rep, quick):
     W = 10 if quick else 16
     ALL = ['bare', 'decorated', 'host', 'hostrand']
+    ADV = K.ADV_MODES
+    wa = 6 if quick else 8          # total operand width up to which the adversarial-host / call-twice modes run
     rep.bounded_driver(D_SUB, f'add_sub_two_numbers, generate_sub_two_numbers, add_subtract_with_compare on all width pairs n+m <= {W}, all operand values '
                        'bit-parallel, both endiannesses, operands = primary inputs / internal gates of a bijective host / arbitrary nodes of random hosts (n+m <= 6); '
-                       'add_sub2, add_sub3 leaves; value, borrow flag, length, frame clauses', f'n+m <= {W} exhaustive values', exhaustive=True)
-    rep.bounded_driver(D_DIV, f'add_div_mod, generate_div_mod, n <= {W // 2} (2n input bits), all operand values incl. b = 0, both endiannesses, operands inputs / host gates / random host nodes',
-                       f'2n <= {W} exhaustive values', exhaustive=True)
-    rep.bounded_driver(D_SQRT, f'add_sqrt, generate_sqrt, n <= {W}, all operand values, both endiannesses, operands inputs / host gates / random host nodes (n <= 6)',
-                       f'n <= {W} exhaustive values', exhaustive=True)
+                       f'adversarial host (gates of all 14 binary types over the first two bit positions in both operand orders, two storage orders) and called twice ((b, a) then (a, b) in one circuit, both results checked) for n+m <= {wa}; '
+                       'add_sub2, add_sub3 leaves (also in the adversarial hosts); value, borrow flag, length, frame clauses', f'n+m <= {W} exhaustive values', exhaustive=True)
+    rep.bounded_driver(D_DIV, f'add_div_mod, generate_div_mod, n <= {W // 2} (2n input bits), all operand values incl. b = 0, both endiannesses, operands inputs / host gates / random host nodes; '
+                       f'adversarial hosts and called twice (b, a) then (a, b) for 2n <= {wa}', f'2n <= {W} exhaustive values', exhaustive=True)
+    rep.bounded_driver(D_SQRT, f'add_sqrt, generate_sqrt, n <= {W}, all operand values, both endiannesses, operands inputs / host gates / random host nodes (n <= 6); '
+                       f'adversarial hosts and called twice on the same operand for n <= {wa}', f'n <= {W} exhaustive values', exhaustive=True)
     ne = 5 if quick else 8
-    rep.bounded_driver(D_EQ, f'add_equal, generate_equal, n <= {ne}, every constant num in [-2^n-2, 2^(n+1)+1], all operand values, operands inputs / inputs of a host / host gates / random host nodes',
-                       f'n <= {ne}, all constants in the stated range', exhaustive=True)
+    rep.bounded_driver(D_EQ, f'add_equal, generate_equal, n <= {ne}, every constant num in [-2^n-2, 2^(n+1)+1], all operand values, operands inputs / inputs of a host / host gates / random host nodes; '
+                       'n <= 5 also adversarial hosts and called twice (num xor 1, then num)', f'n <= {ne}, all constants in the stated range', exhaustive=True)
     rep.bounded_driver(D_P1, 'add_plus_one: inp_len 1..5 x (result_labels absent | out_len 1..5) x add_outputs x big_endian x operands (bare inputs / inputs of a host with outputs / '
-                       'internal host gates / random host nodes); generate_plus_one inp_len 1..5 x out_len 1..6 x big_endian; value, marks outputs only when asked, returns result_labels, frame',
+                       'internal host gates / random host nodes / adversarial hosts / called twice on the same operand); generate_plus_one inp_len 1..5 x out_len 1..6 x big_endian; value, marks outputs only when asked, returns result_labels, frame',
                        'inp_len, out_len <= 5 exhaustive', exhaustive=True)
     ng = 3 if quick else 5
     rep.bounded_driver(D_GAD, f'add_if_then_else, add_pairwise_if_then_else, add_pairwise_xor (n <= {ng}) x add_outputs x result labels given or not x operands (bare / inputs of a host / '
@@ -550,17 +627,17 @@ def run_bounded(rep, quick):
     tasks = []
     for n in range(1, W):
         for m in range(1, W - n + 1):
-            modes = ['bare', 'host'] + (['hostrand'] if n + m <= 6 else [])
+            modes = ['bare', 'host'] + (['hostrand'] if n + m <= 6 else []) + (ADV if n + m <= wa else [])
             tasks.append(('task_sub', (n, m, modes)))
-    tasks.append(('task_sub_leaf', (['bare', 'host', 'hostrand'],)))
+    tasks.append(('task_sub_leaf', (['bare', 'host', 'hostrand', 'adversarial', 'adversarial2'],)))
     for n in range(1, W // 2 + 1):
-        tasks.append(('task_divmod', (n, ['bare', 'host'] + (['hostrand'] if n <= 3 else []))))
+        tasks.append(('task_divmod', (n, ['bare', 'host'] + (['hostrand'] if n <= 3 else []) + (ADV if 2 * n <= wa else []))))
     for n in range(1, W + 1):
-        tasks.append(('task_sqrt', (n, ['bare', 'host'] + (['hostrand'] if n <= 6 else []))))
+        tasks.append(('task_sqrt', (n, ['bare', 'host'] + (['hostrand'] if n <= 6 else []) + (ADV if n <= wa else []))))
     for n in range(1, ne + 1):
-        tasks.append(('task_equal', (n, ALL if n <= 5 else ['bare', 'host'])))
+        tasks.append(('task_equal', (n, ALL + ADV if n <= 5 else ['bare', 'host'])))
     for inp_len in range(1, 6):
-        tasks.append(('task_plus_one', (inp_len, ALL)))
+        tasks.append(('task_plus_one', (inp_len, ALL + ADV)))
     for n in range(1, ng + 1):
         tasks.append(('task_gadgets', (n, ALL)))
     K.run_tasks(rep, PROP, __name__, tasks, quick)
